@@ -457,6 +457,13 @@ pub struct HSpec {
     /// is relative) and `files()` looks the file up by name; default: stripped entries (`07070X` + file
     /// index), so that entry i belongs to header file i whatever the paths are (duplicates included)
     pub named: bool,
+    /// RPMTAG_FILEDIGESTALGO (5011) as an INT32 value (None = tag absent: the code falls back to MD5)
+    pub digest_algo: Option<u32>,
+    /// RPMTAG_FILEDIGESTALGO stored with the wrong data type (a STRING): the getter fails, MD5 again
+    pub digest_algo_as_string: bool,
+    /// NUL bytes appended to the name of every named (newc) entry, counted in its `namesize`: the reader
+    /// strips them, so the entry still names its file — up to the name-length limit of `Reader::new`
+    pub name_pad: usize,
 }
 
 pub fn stripped_entry(idx: u32, data: &[u8]) -> Vec<u8> {
@@ -484,13 +491,19 @@ fn entry_name(s: &HSpec, f: &HFile, i: usize) -> Vec<u8> {
 }
 
 pub fn cpio_entry(name: &[u8], mode: u32, data: &[u8]) -> Vec<u8> {
+    cpio_entry_padded(name, 0, mode, data)
+}
+
+/// a newc entry whose name field is `name`, `name_pad` extra NUL bytes, and the terminating NUL
+pub fn cpio_entry_padded(name: &[u8], name_pad: usize, mode: u32, data: &[u8]) -> Vec<u8> {
     let mut v = Vec::new();
     v.extend_from_slice(b"070701");
-    let namesize = name.len() as u32 + 1;
+    let namesize = (name.len() + name_pad) as u32 + 1;
     for f in [1u32, mode, 0, 0, 1, 0, data.len() as u32, 0, 0, 0, 0, namesize, 0] {
         v.extend_from_slice(format!("{:08x}", f).as_bytes());
     }
     v.extend_from_slice(name);
+    v.extend(std::iter::repeat(0u8).take(name_pad));
     v.push(0);
     while v.len() % 4 != 0 {
         v.push(0);
@@ -532,10 +545,17 @@ pub fn hostile_pkg(s: &HSpec) -> Vec<u8> {
     if let Some(c) = &s.compressor {
         h.push(1125, 6, &TData::Str(c.clone()));
     }
+    if let Some(a) = s.digest_algo {
+        if s.digest_algo_as_string {
+            h.push(5011, 6, &TData::Str(a.to_string().into_bytes()));
+        } else {
+            h.push(5011, 4, &TData::U32(vec![a]));
+        }
+    }
     let mut payload = Vec::new();
     for (i, f) in s.files.iter().enumerate() {
         if s.named {
-            payload.extend(cpio_entry(&entry_name(s, f, i), f.mode as u32, &f.content));
+            payload.extend(cpio_entry_padded(&entry_name(s, f, i), s.name_pad, f.mode as u32, &f.content));
         } else {
             payload.extend(stripped_entry(i as u32, &f.content));
         }
@@ -648,6 +668,61 @@ pub fn hostile_families() -> Vec<(&'static str, HSpec)> {
     let mut s = base.clone(); s.digests = Some(vec![b("abc"), vec![]]); v.push(("digest-bad", s));
     let mut s = base.clone(); s.digests = Some(vec![vec![b'0'; 32], vec![b'f'; 32]]); v.push(("digest-md5", s));
     let mut s = hs(&["/"], vec![hf(0, "f", r, "", "abcd"), hf(0, "g", r, "", "efgh")]); s.payload_cut = Some(118); s.named = true; v.push(("payload-cut-in-data-aligned", s));
+    // file digests: `get_file_entries` (hence `files()`, hence `extract`) fails unless every non-empty digest has the hex
+    // length `FileDigest::new` pairs with RPMTAG_FILEDIGESTALGO (absent / not a DigestAlgorithm / wrong type = MD5).
+    // One case per algorithm with the right length, the neighbouring wrong ones, and numbers that are no
+    // algorithm of the crate (2 = SHA-1) or an algorithm `FileDigest::new` has no arm for (12, 14 = SHA-3)
+    let hexd = |c: u8, n: usize| vec![c; n];
+    let dg = |algo: Option<u32>, lens: [usize; 2]| {
+        let mut s = base.clone();
+        s.digest_algo = algo;
+        s.digests = Some(vec![hexd(b'a', lens[0]), hexd(b'0', lens[1])]);
+        s
+    };
+    v.push(("digest-sha224-56", dg(Some(11), [56, 56])));
+    v.push(("digest-sha224-60", dg(Some(11), [60, 60])));
+    v.push(("digest-sha224-56-then-60", dg(Some(11), [56, 60])));
+    v.push(("digest-sha224-56-empty", dg(Some(11), [56, 0])));
+    v.push(("digest-sha224-55", dg(Some(11), [56, 55])));
+    v.push(("digest-sha224-64", dg(Some(11), [64, 64])));
+    v.push(("digest-sha256-64", dg(Some(8), [64, 64])));
+    v.push(("digest-sha256-32", dg(Some(8), [32, 32])));
+    v.push(("digest-sha256-56", dg(Some(8), [64, 56])));
+    v.push(("digest-sha384-96", dg(Some(9), [96, 96])));
+    v.push(("digest-sha384-64", dg(Some(9), [64, 96])));
+    v.push(("digest-sha512-128", dg(Some(10), [128, 128])));
+    v.push(("digest-sha512-96", dg(Some(10), [128, 96])));
+    v.push(("digest-md5-explicit-32", dg(Some(1), [32, 32])));
+    v.push(("digest-md5-explicit-64", dg(Some(1), [64, 32])));
+    v.push(("digest-md5-default-64", dg(None, [64, 64])));
+    v.push(("digest-md5-default-56", dg(None, [56, 56])));
+    v.push(("digest-sha1-40", dg(Some(2), [40, 40])));
+    v.push(("digest-sha1-32", dg(Some(2), [32, 32])));
+    v.push(("digest-sha3-256-64", dg(Some(12), [64, 64])));
+    v.push(("digest-sha3-256-empty", dg(Some(12), [0, 0])));
+    v.push(("digest-sha3-512-128", dg(Some(14), [128, 0])));
+    v.push(("digest-algo-0-32", dg(Some(0), [32, 32])));
+    v.push(("digest-algo-13-64", dg(Some(13), [64, 64])));
+    v.push(("digest-algo-99-32", dg(Some(99), [32, 0])));
+    v.push(("digest-algo-99-64", dg(Some(99), [64, 64])));
+    v.push(("digest-algo-big-56", dg(Some(0xffff_ffff), [56, 56])));
+    let mut s = dg(Some(11), [56, 56]); s.digest_algo_as_string = true; v.push(("digest-algo-wrongtype-56", s));
+    let mut s = dg(Some(11), [32, 32]); s.digest_algo_as_string = true; v.push(("digest-algo-wrongtype-32", s));
+    // the length is counted in BYTES of the string: 28 two-byte characters are "56 long"
+    let mut s = base.clone(); s.digest_algo = Some(11); s.digests = Some(vec!["é".repeat(28).into_bytes(), "é".repeat(56).into_bytes()]); v.push(("digest-sha224-utf8", s));
+    let mut s = base.clone(); s.digest_algo = Some(11); s.digests = Some(vec!["é".repeat(28).into_bytes(), vec![]]); v.push(("digest-sha224-utf8-ok", s));
+    // fewer digests than files: the zip stops at the shortest column (one entry, the archive's second entry is unknown)
+    let mut s = base.clone(); s.digest_algo = Some(11); s.digests = Some(vec![hexd(b'a', 56)]); v.push(("digest-sha224-short-column", s));
+    // compressor names next to the accepted ones
+    for (name, c) in [("compressor-caps", "None"), ("compressor-empty", ""), ("compressor-gz", "gz"), ("compressor-none-space", "none "), ("compressor-lzma", "lzma")] {
+        let mut s = base.clone(); s.compressor = Some(b(c)); v.push((name, s));
+    }
+    // the name-length limit of `Reader::new` (name size including the NUL): "./f" + NULs, 4096 is read, 4097 refused
+    let mut nb = hs(&["/"], vec![hf(0, "f", r, "", "hello"), hf(0, "g", REG | 0o755, "", "world!!")]);
+    nb.named = true;
+    for (name, pad) in [("name-pad-1", 1usize), ("name-pad-4", 4), ("name-size-4095", 4091), ("name-size-4096", 4092), ("name-size-4097", 4093), ("name-size-8192", 8188)] {
+        let mut s = nb.clone(); s.name_pad = pad; v.push((name, s));
+    }
     v.push(("benign-hand", base));
     v
 }
@@ -679,7 +754,15 @@ fn rand_hostile(rng: &mut Rng) -> HSpec {
             }
         })
         .collect();
-    HSpec { dirnames, files, ..Default::default() }
+    // now and then a digest algorithm and digests of the usual lengths (right and wrong ones)
+    let (digest_algo, digests) = if rng.chance(1, 4) {
+        let algo = *rng.pick(&[1u32, 2, 8, 9, 10, 11, 11, 11, 12, 14, 0, 77]);
+        let ds = (0..nf).map(|_| vec![b'5'; *rng.pick(&[0usize, 32, 40, 56, 56, 60, 64, 96, 128])]).collect();
+        (if rng.chance(1, 6) { None } else { Some(algo) }, Some(ds))
+    } else {
+        (None, None)
+    };
+    HSpec { dirnames, files, digest_algo, digests, ..Default::default() }
 }
 
 /// a link entry followed by entries at or below its path (and unrelated ones around it)
@@ -796,7 +879,7 @@ pub fn gen(ctx: &mut Ctx) {
         files.push(reg("./rel/dot/slash", 0o640, b"dot-slash destination"));
         if let Some(p) = build_pkg(&mut src, &files, rpm::CompressionType::None) {
             ctx.req(&request(&p, None, "/target", &jail));
-            for comp in [rpm::CompressionType::Gzip, rpm::CompressionType::Zstd] {
+            for comp in [rpm::CompressionType::Gzip, rpm::CompressionType::Zstd, rpm::CompressionType::Xz, rpm::CompressionType::Bzip2] {
                 if let (Some(pc), Ok(raw)) = (build_pkg(&mut src, &files, comp), rpm::Package::parse(&mut &p[..])) {
                     ctx.req(&request(&pc, Some(&raw.content), "/target", &jail));
                 }
